@@ -26,7 +26,8 @@ def sources(chk: Check, tier: str):
     plans = [("lexM", "markup-small" if not thorough else "markup", 4 if not thorough else 4, "", ""),
              ("lexE-out", "expr-small" if not thorough else "expr", 3 if not thorough else 4, "{{ ", " }}"),
              ("lexE-if", "expr-small", 3 if not thorough else 4, "{% if ", " %}a{% endif %}"),
-             ("lexE-for", "expr-small", 2 if not thorough else 3, "{% for i in ", " %}{{ i }}{% endfor %}"),
+             ("lexE-for", "expr-small", 3, "{% for i in ", " %}{{ i }}{% endfor %}"),
+             ("lexE-cycle", "expr-small", 3 if not thorough else 4, "{% cycle ", ", 'b' %}"),
              ("lexE-liquid", "expr-small", 2 if not thorough else 3, "{% liquid echo ", "\n assign y = 1 %}")]
     lines = []
     for focus, alpha, n, pre, suf in plans:
